@@ -143,26 +143,33 @@ def applyBin {V} (r : BinRes V) (rest : List V) : CalcRes V :=
 
 /-- `calculate(opdStack, opt)`: three sequential `if`s, each guarded by a length check,
 so no panic outcome exists here. -/
-def calculate {V} (S : Sem V) (opd : List V) (t : Tok) : CalcRes V :=
-  let s1 : CalcRes V :=
-    if t.val == "-" && t.ty == .opPrefix then
-      match opd with
-      | [] => ⟨opd, true⟩
-      | x :: r => ⟨S.neg x :: r, false⟩
-    else ⟨opd, false⟩
-  if s1.failed then s1 else
-  let s2 : CalcRes V :=
-    if t.val == "-" && t.ty == .opInfix then
-      match s1.opd with
-      | r :: l :: rest => applyBin (S.sub2 r l) rest
-      | _ => ⟨s1.opd, true⟩
-    else s1
-  if s2.failed then s2 else
+def calcNeg {V} (S : Sem V) (opd : List V) (t : Tok) : CalcRes V :=
+  if t.val == "-" && t.ty == .opPrefix then
+    match opd with
+    | [] => ⟨opd, true⟩
+    | x :: r => ⟨S.neg x :: r, false⟩
+  else ⟨opd, false⟩
+
+def calcSub {V} (S : Sem V) (opd : List V) (t : Tok) : CalcRes V :=
+  if t.val == "-" && t.ty == .opInfix then
+    match opd with
+    | r :: l :: rest => applyBin (S.sub2 r l) rest
+    | _ => ⟨opd, true⟩
+  else ⟨opd, false⟩
+
+def calcBin {V} (S : Sem V) (opd : List V) (t : Tok) : CalcRes V :=
   if Facts.C09.calcOps.contains t.val then
-    match s2.opd with
+    match opd with
     | r :: l :: rest => applyBin (S.bin t.val r l) rest
-    | _ => ⟨s2.opd, true⟩
-  else s2
+    | _ => ⟨opd, true⟩
+  else ⟨opd, false⟩
+
+def calculate {V} (S : Sem V) (opd : List V) (t : Tok) : CalcRes V :=
+  let s1 := calcNeg S opd t
+  if s1.failed then s1 else
+  let s2 := calcSub S s1.opd t
+  if s2.failed then s2 else
+  calcBin S s2.opd t
 
 /-- the `for tokenPriority <= topOptPriority` loop of `parseOperatorPrefixToken`;
 `none` = `calculate` returned an error -/
@@ -197,6 +204,14 @@ def closeParen {V} (S : Sem V) : List Tok → List V → Outcome (List Tok × Li
       let c := calculate S opd top
       if c.failed then .err else closeParen S rest c.opd
 
+/-- `if token.TType == efp.TokenTypeOperatorPostfix && !opdStack.Empty() { pop; push(Number / 100) }` -/
+def applyPostfix {V} (S : Sem V) (t : Tok) (opd : List V) : List V :=
+  if t.ty == .opPostfix then
+    match opd with
+    | [] => opd
+    | x :: r => S.pct x :: r
+  else opd
+
 /-- `parseToken(ctx, sheet, token, opdStack, optStack)` -/
 def parseToken {V} (S : Sem V) (t0 : Tok) (opd : List V) (opt : List Tok) :
     Outcome (List V × List Tok) :=
@@ -222,11 +237,7 @@ def parseToken {V} (S : Sem V) (t0 : Tok) (opd : List V) (opt : List Tok) :
   | .panic => .panic
   | .ok (opt, opd) =>
   -- postfix %
-  let opd := if t.ty == .opPostfix then
-      match opd with
-      | [] => opd
-      | x :: r => S.pct x :: r
-    else opd
+  let opd := applyPostfix S t opd
   -- operand
   let opd := if isOperand t then S.ofTok t :: opd else opd
   .ok (opd, opt)
@@ -267,6 +278,27 @@ def pushArg {V} (v : V) : List (List V) → Outcome (List (List V))
   | [] => .panic
   | a :: as => .ok ((a ++ [v]) :: as)
 
+/-- the `argument` flag of `prepareEvalInfixExp`: with more than two tokens on `opft` and exactly one
+pending operand, look at the token below the top (`Pop`, `Peek().(efp.Token)`, `Push`) -/
+def argumentFlag (opft : List Tok) (opfdLen : Nat) : Outcome Bool :=
+  if opft.length > 2 && opfdLen == 1 then
+    match opft with
+    | _ :: second :: _ => .ok (!(second.ty == .opInfix))
+    | _ => .panic
+  else .ok true
+
+/-- `if argument && opfdStack.Len() > 0 { argsStack.Peek().(*list.List).PushBack(opfdStack.Pop()) }` -/
+def pushPending {V} (argument : Bool) (opfd : List V) (args : List (List V)) :
+    Outcome (List V × List (List V)) :=
+  if argument then
+    match opfd with
+    | [] => .ok (opfd, args)
+    | v :: rest => match pushArg v args with
+      | .ok args' => .ok (rest, args')
+      | .err => .err
+      | .panic => .panic
+  else .ok (opfd, args)
+
 /-- `evalInfixExpFunc` (with `prepareEvalInfixExp` inlined) -/
 def evalFunc {V} (S : Sem V) (st : St V) (t n : Tok) : Outcome (St V) :=
   if !isFuncStop t then .ok st else
@@ -277,27 +309,11 @@ def evalFunc {V} (S : Sem V) (st : St V) (t n : Tok) : Outcome (St V) :=
   | .err => .err
   | .panic => .panic
   | .ok (opft, opfd, args) =>
-  -- `argument` flag: look below the top of opft when it holds more than two tokens
-  let argument : Outcome Bool :=
-    if opft.length > 2 && opfd.length == 1 then
-      match opft with
-      | _ :: second :: _ => .ok (!(second.ty == .opInfix))
-      | _ => .panic
-    else .ok true
-  match argument with
+  match argumentFlag opft opfd.length with
   | .err => .err
   | .panic => .panic
   | .ok argument =>
-  let r : Outcome (List V × List (List V)) :=
-    if argument then
-      match opfd with
-      | [] => .ok (opfd, args)
-      | v :: rest => match pushArg v args with
-        | .ok args' => .ok (rest, args')
-        | .err => .err
-        | .panic => .panic
-    else .ok (opfd, args)
-  match r with
+  match pushPending argument opfd args with
   | .err => .err
   | .panic => .panic
   | .ok (opfd, args) =>
@@ -321,32 +337,33 @@ def evalFunc {V} (S : Sem V) (st : St V) (t n : Tok) : Outcome (St V) :=
       | none => arg
     .ok { st with opf := opfRest, opft := opft, args := argsRest, opfd := opfd, opd := top :: st.opd }
 
-/-- the `if opfStack.Len() > 0 { … }` block of the loop body, `f = opfStack.Peek()` -/
-def inFunc {V} (S : Sem V) (st : St V) (f t n : Tok) : Outcome (St V) :=
-  -- current token is a reference: handled here when it is an argument by itself
-  let ra : Option (Outcome (St V)) :=
-    if t.sub == .range then
-      match st.opft with
-      | [] => some .panic
-      | top :: _ =>
-        if top ≠ f then
-          match S.resolve t.val with
-          | none => some .err
-          | some v => some (.ok { st with opfd := v :: st.opfd })
-        else if n.ty == .argument || n.ty == .function then
-          match S.resolve t.val with
-          | none => some .err
-          | some v =>
-            if n.ty == .argument && !st.opfd.isEmpty then some (.ok { st with opfd := v :: st.opfd })
-            else match pushArg v st.args with
-              | .ok args' => some (.ok { st with args := args' })
-              | .err => some .err
-              | .panic => some .panic
-        else none
-    else none
-  match ra with
-  | some r => r
-  | none =>
+/-- the `if token.TSubType == efp.TokenSubTypeRange { … }` part of the in-function block: a
+reference that is an argument by itself is resolved here; `some r` = the loop `continue`s (or
+returns) with `r`, `none` = fall through -/
+def inFuncRef {V} (S : Sem V) (st : St V) (f t n : Tok) : Option (Outcome (St V)) :=
+  if t.sub == .range then
+    match st.opft with
+    | [] => some .panic
+    | top :: _ =>
+      if top ≠ f then
+        match S.resolve t.val with
+        | none => some .err
+        | some v => some (.ok { st with opfd := v :: st.opfd })
+      else if n.ty == .argument || n.ty == .function then
+        match S.resolve t.val with
+        | none => some .err
+        | some v =>
+          if n.ty == .argument && !st.opfd.isEmpty then some (.ok { st with opfd := v :: st.opfd })
+          else match pushArg v st.args with
+            | .ok args' => some (.ok { st with args := args' })
+            | .err => some .err
+            | .panic => some .panic
+      else none
+  else none
+
+/-- the rest of the in-function block: `parseToken` on the function stacks, argument
+separator, array constant, function stop -/
+def inFuncRest {V} (S : Sem V) (st : St V) (f t n : Tok) : Outcome (St V) :=
   match parseToken S t st.opfd st.opft with
   | .err => .err
   | .panic => .panic
@@ -378,6 +395,12 @@ def inFunc {V} (S : Sem V) (st : St V) (f t n : Tok) : Outcome (St V) :=
     | .err => .err
     | .panic => .panic
   else evalFunc S st t n
+
+/-- the `if opfStack.Len() > 0 { … }` block of the loop body, `f = opfStack.Peek()` -/
+def inFunc {V} (S : Sem V) (st : St V) (f t n : Tok) : Outcome (St V) :=
+  match inFuncRef S st f t n with
+  | some r => r
+  | none => inFuncRest S st f t n
 
 /-- one iteration of the token loop of `evalInfixExp`; `n` is `tokens[i+1]` or the zero token -/
 def step {V} (S : Sem V) (st : St V) (t n : Tok) : Outcome (St V) :=
